@@ -27,11 +27,29 @@ func RealLength(s string) int {
 // accounting for any ANSI escapes/color codes, and tabulations replaced with 4 spaces.
 func LineSpan(line []rune, idx, indent int) (x, y int) {
 	termWidth := term.GetWidth()
-	lineLen := RealLength(string(line))
-	lineLen += indent
+	text := FormatTabs(color.Strip(string(line)))
 
-	cursorY := lineLen / termWidth
-	cursorX := lineLen % termWidth
+	// Flow the line like the terminal does: a character that does
+	// not fit in what is left of the row wraps entirely on the next.
+	cursorX, cursorY := indent, 0
+
+	graphemes := uniseg.NewGraphemes(text)
+	for graphemes.Next() {
+		width := graphemes.Width()
+
+		if cursorX+width > termWidth && cursorX > 0 {
+			cursorY++
+			cursorX = 0
+		}
+
+		cursorX += width
+	}
+
+	// A full row puts the cursor on the next one.
+	if termWidth > 0 && cursorX >= termWidth {
+		cursorY++
+		cursorX = 0
+	}
 
 	// Empty lines are still considered a line.
 	if idx != 0 {
